@@ -50,6 +50,8 @@ pub struct CfgSer {
     pub split_prob: f64,
     pub kill_prob: f64,
     pub max_kills: u32,
+    #[serde(default)]
+    pub post_yield_prob: f64,
     pub strategy: String,
     pub sticky: f64,
     pub pct_depth: u32,
@@ -67,6 +69,7 @@ impl CfgSer {
             split_prob: self.split_prob,
             kill_prob: self.kill_prob,
             max_kills: self.max_kills,
+            post_yield_prob: self.post_yield_prob,
             strategy: if self.strategy == "pct" { Strategy::Pct { depth: self.pct_depth, est_len: self.pct_len } } else { Strategy::Random { sticky: self.sticky } },
             step_cap: self.step_cap,
             spin_limit: self.spin_limit,
@@ -74,7 +77,7 @@ impl CfgSer {
         }
     }
     pub fn base() -> CfgSer {
-        CfgSer { weak: false, stale_prob: 0.0, cas_weak_fail_prob: 0.0, p1: false, split_prob: 0.0, kill_prob: 0.0, max_kills: 0, strategy: "random".into(), sticky: 0.5, pct_depth: 0, pct_len: 0, step_cap: 20_000, spin_limit: 48 }
+        CfgSer { weak: false, stale_prob: 0.0, cas_weak_fail_prob: 0.0, p1: false, split_prob: 0.0, kill_prob: 0.0, max_kills: 0, post_yield_prob: 0.0, strategy: "random".into(), sticky: 0.5, pct_depth: 0, pct_len: 0, step_cap: 20_000, spin_limit: 48 }
     }
     /// swarm style: draw the scheduling strategy for one run
     pub fn draw_strategy(&mut self, r: &mut Rng, est_len: u64) {
@@ -380,7 +383,7 @@ pub fn minimise(h: &dyn Harness, rf: &ReplayFile, budget: usize) -> ReplayFile {
     let mut best = rf.clone();
     let class = rf.violation.class.clone();
     let mut tries = 0usize;
-    let mut attempt = |cand: &ReplayFile, tries: &mut usize| -> Option<RunResult> {
+    let attempt = |cand: &ReplayFile, tries: &mut usize| -> Option<RunResult> {
         if *tries >= budget {
             return None;
         }
